@@ -1,6 +1,11 @@
 //! C11 — naive Bayes: correspondence cases for the Coq model (SC.C11.Corr) and the failing-input
 //! search.  The search oracle is written from the property text (sufficient statistics by their
 //! definitions, MAP decision by definition), independently of the implementation and of the model.
+//! Parameters reach `fit` either as a struct literal (`build: None`) or through the public builder
+//! methods called in a recorded order on `Default::default()` (`build: Some(steps)`); the oracle
+//! `builder_order_irrelevant` demands that every call order (and every overridden earlier call) gives
+//! the struct, the fitted model, its serialized state and its predictions of the struct literal
+//! holding the requested values — which is judged by the definition-based oracles.
 use serde_json::{json, Value};
 use smartcore::linalg::naive::dense_matrix::DenseMatrix;
 use smartcore::math::vector::RealNumberVector;
@@ -38,11 +43,100 @@ impl Variant {
     }
 }
 
+/// One call of a builder method of `XxxNBParameters`.
+#[derive(Clone, Debug, PartialEq)]
+enum Step {
+    Alpha(f64),
+    Priors(Vec<f64>),
+    Binarize(f64),
+}
+impl Step {
+    fn kind(&self) -> usize {
+        match self {
+            Step::Alpha(_) => 0,
+            Step::Priors(_) => 1,
+            Step::Binarize(_) => 2,
+        }
+    }
+    /// does the variant's parameter struct have this builder method?
+    fn applicable(&self, v: Variant) -> bool {
+        match (self, v) {
+            (Step::Alpha(_), Variant::G) => false,
+            (Step::Alpha(_), _) => true,
+            (Step::Priors(_), Variant::C) => false,
+            (Step::Priors(_), _) => true,
+            (Step::Binarize(_), Variant::B) => true,
+            (Step::Binarize(_), _) => false,
+        }
+    }
+    fn to_json(&self) -> Value {
+        match self {
+            Step::Alpha(a) => json!(["alpha", a]),
+            Step::Priors(p) => json!(["priors", p]),
+            Step::Binarize(t) => json!(["binarize", t]),
+        }
+    }
+    fn from_json(v: &Value) -> Option<Step> {
+        match v[0].as_str()? {
+            "alpha" => Some(Step::Alpha(v[1].as_f64()?)),
+            "priors" => Some(Step::Priors(f64s_from_json(&v[1]))),
+            "binarize" => Some(Step::Binarize(v[1].as_f64()?)),
+            _ => None,
+        }
+    }
+    fn call(&self) -> String {
+        match self {
+            Step::Alpha(a) => format!(".with_alpha({:?})", a),
+            Step::Priors(p) => format!(".with_priors(vec!{:?})", p),
+            Step::Binarize(t) => format!(".with_binarize({:?})", t),
+        }
+    }
+    fn coq(&self) -> String {
+        match self {
+            Step::Alpha(a) => format!("WithAlpha {}", coq_f64(*a)),
+            Step::Priors(p) => format!("WithPriors {}", coq_list_f64(p)),
+            Step::Binarize(t) => format!("WithBinarize {}", coq_f64(*t)),
+        }
+    }
+}
+fn calls(v: Variant, steps: &[Step]) -> String {
+    let name = match v {
+        Variant::G => "GaussianNBParameters",
+        Variant::M => "MultinomialNBParameters",
+        Variant::B => "BernoulliNBParameters",
+        Variant::C => "CategoricalNBParameters",
+    };
+    format!("{}::default(){}", name, steps.iter().map(|s| s.call()).collect::<Vec<_>>().join(""))
+}
+
+/// (alpha, priors, binarize); a field the variant's struct does not have holds its neutral value
+/// (alpha 1, priors None, binarize None).
+type Fields = (f64, Option<Vec<f64>>, Option<f64>);
+
+/// What the documentation promises for a call sequence on `Default::default()`: the documented
+/// defaults (alpha = 1, priors = None, Bernoulli threshold = Some(0)), each field replaced by the
+/// value of the LAST call that sets it.  Independent of the implementation.
+fn requested_from_steps(v: Variant, steps: &[Step]) -> Fields {
+    let mut f: Fields = (1.0, None, if v == Variant::B { Some(0.0) } else { None });
+    for s in steps {
+        match s {
+            Step::Alpha(a) => f.0 = *a,
+            Step::Priors(p) => f.1 = Some(p.clone()),
+            Step::Binarize(t) => f.2 = Some(*t),
+        }
+    }
+    f
+}
+fn fields_same(a: &Fields, b: &Fields) -> bool {
+    format!("{:?}", a) == format!("{:?}", b)
+}
+
 #[derive(Clone, Debug)]
 struct Case {
     v: Variant,
     x: Vec<Vec<f64>>,
     y: Vec<i64>,
+    /// the REQUESTED parameter values (what the definition-based oracles and the Coq model use)
     alpha: f64,
     priors: Option<Vec<f64>>,
     binarize: Option<f64>,
@@ -50,13 +144,18 @@ struct Case {
     family: String,
     /// two labels whose classes consist of the same rows in the same order (exact score ties)
     dup: Option<(i64, i64)>,
+    /// None: parameters are passed as a struct literal holding the requested values;
+    /// Some(steps): parameters are `Default::default()` followed by these builder calls, in order
+    build: Option<Vec<Step>>,
 }
 
 impl Case {
     fn to_json(&self) -> Value {
         json!({"entry": self.v.name(), "x": self.x, "y": self.y, "alpha": self.alpha, "priors": self.priors,
                "binarize": self.binarize, "q": self.q, "family": self.family,
-               "dup": self.dup.map(|(a, b)| vec![a, b])})
+               "dup": self.dup.map(|(a, b)| vec![a, b]),
+               "build": self.build.as_ref().map(|b| b.iter().map(|s| s.to_json()).collect::<Vec<Value>>()),
+               "calls": self.build.as_ref().map(|b| calls(self.v, b))})
     }
     fn from_json(v: &Value) -> Option<Case> {
         let var = Variant::from_name(v["entry"].as_str()?)?;
@@ -70,7 +169,42 @@ impl Case {
             q: rows_from_json(&v["q"]),
             family: v["family"].as_str().unwrap_or("replay").to_string(),
             dup: v["dup"].as_array().and_then(|a| if a.len() == 2 { Some((a[0].as_i64()?, a[1].as_i64()?)) } else { None }),
+            build: match v["build"].as_array() {
+                None => None,
+                Some(a) => Some(a.iter().map(Step::from_json).collect::<Option<Vec<Step>>>()?),
+            },
         })
+    }
+}
+
+impl Case {
+    /// the requested values restricted to the fields the variant's struct has
+    fn requested(&self) -> Fields {
+        match self.v {
+            Variant::G => (1.0, self.priors.clone(), None),
+            Variant::M => (self.alpha, self.priors.clone(), None),
+            Variant::B => (self.alpha, self.priors.clone(), self.binarize),
+            Variant::C => (self.alpha, None, None),
+        }
+    }
+    fn literal(&self) -> Case {
+        let mut c = self.clone();
+        c.build = None;
+        c
+    }
+    fn built(&self, steps: &[Step]) -> Case {
+        let mut c = self.clone();
+        c.build = Some(steps.to_vec());
+        c
+    }
+    /// the case whose requested values are exactly what `steps` asks for
+    fn with_steps(&self, steps: &[Step]) -> Case {
+        let mut c = self.built(steps);
+        let (a, p, b) = requested_from_steps(self.v, steps);
+        c.alpha = a;
+        c.priors = p;
+        c.binarize = b;
+        c
     }
 }
 
@@ -91,42 +225,124 @@ struct Fit {
     coef: Vec<Vec<Vec<f64>>>,
 }
 struct ImplOut {
+    /// the public fields of the parameter struct handed to `fit` (None: a builder method panicked)
+    fields: Option<Fields>,
     /// Err = panic message, Ok(None) = fit returned Err
     fit: Result<Option<Fit>, String>,
+    /// serde state of the fitted model
+    state: Option<Value>,
     /// None when there is no fitted model; Err = predict panicked or returned Err
     pred: Option<Result<Vec<f64>, String>>,
 }
 
-fn priors_via_serde<S: serde::Serialize>(m: &S) -> Vec<f64> {
-    let v = serde_json::to_value(m).unwrap_or(Value::Null);
+fn serde_state<S: serde::Serialize>(m: &S) -> Value {
+    serde_json::to_value(m).unwrap_or(Value::Null)
+}
+fn priors_of_state(v: &Value) -> Vec<f64> {
     f64s_from_json(&v["inner"]["distribution"]["class_priors"])
+}
+
+enum Params {
+    G(GaussianNBParameters<f64>),
+    M(MultinomialNBParameters<f64>),
+    B(BernoulliNBParameters<f64>),
+    C(CategoricalNBParameters<f64>),
+}
+impl Params {
+    fn fields(&self) -> Fields {
+        match self {
+            Params::G(p) => (1.0, p.priors.clone(), None),
+            Params::M(p) => (p.alpha, p.priors.clone(), None),
+            Params::B(p) => (p.alpha, p.priors.clone(), p.binarize),
+            Params::C(p) => (p.alpha, None, None),
+        }
+    }
+}
+
+/// The parameter struct of the case: the struct literal with the requested values, or
+/// `Default::default()` followed by the recorded builder calls.  Calls the variant's struct does not
+/// offer cannot be written against the API and are skipped (the generators never produce them).
+fn make_params(c: &Case) -> Params {
+    match (&c.build, c.v) {
+        (None, Variant::G) => Params::G(GaussianNBParameters { priors: c.priors.clone() }),
+        (None, Variant::M) => Params::M(MultinomialNBParameters { alpha: c.alpha, priors: c.priors.clone() }),
+        (None, Variant::B) => Params::B(BernoulliNBParameters { alpha: c.alpha, priors: c.priors.clone(), binarize: c.binarize }),
+        (None, Variant::C) => Params::C(CategoricalNBParameters { alpha: c.alpha }),
+        (Some(steps), Variant::G) => {
+            let mut p = GaussianNBParameters::<f64>::default();
+            for s in steps {
+                p = match s {
+                    Step::Priors(v) => p.with_priors(v.clone()),
+                    _ => p,
+                };
+            }
+            Params::G(p)
+        }
+        (Some(steps), Variant::M) => {
+            let mut p = MultinomialNBParameters::<f64>::default();
+            for s in steps {
+                p = match s {
+                    Step::Alpha(a) => p.with_alpha(*a),
+                    Step::Priors(v) => p.with_priors(v.clone()),
+                    _ => p,
+                };
+            }
+            Params::M(p)
+        }
+        (Some(steps), Variant::B) => {
+            let mut p = BernoulliNBParameters::<f64>::default();
+            for s in steps {
+                p = match s {
+                    Step::Alpha(a) => p.with_alpha(*a),
+                    Step::Priors(v) => p.with_priors(v.clone()),
+                    Step::Binarize(t) => p.with_binarize(*t),
+                };
+            }
+            Params::B(p)
+        }
+        (Some(steps), Variant::C) => {
+            let mut p = CategoricalNBParameters::<f64>::default();
+            for s in steps {
+                p = match s {
+                    Step::Alpha(a) => p.with_alpha(*a),
+                    _ => p,
+                };
+            }
+            Params::C(p)
+        }
+    }
 }
 
 fn run_impl(c: &Case) -> ImplOut {
     let x = dense(&c.x);
     let y: Vec<f64> = c.y.iter().map(|l| *l as f64).collect();
     let q = dense(&c.q);
+    let params = match guard(|| make_params(c)) {
+        Ok(p) => p,
+        Err(msg) => return ImplOut { fields: None, fit: Err(format!("parameter builder panicked: {}", msg)), state: None, pred: None },
+    };
+    let fields = Some(params.fields());
     macro_rules! finish {
         ($res:expr, $extract:expr) => {
             match $res {
-                Err(msg) => ImplOut { fit: Err(msg), pred: None },
-                Ok(Err(_)) => ImplOut { fit: Ok(None), pred: None },
+                Err(msg) => ImplOut { fields, fit: Err(msg), state: None, pred: None },
+                Ok(Err(_)) => ImplOut { fields, fit: Ok(None), state: None, pred: None },
                 Ok(Ok(nb)) => {
-                    let fit: Fit = $extract(&nb);
+                    let state = serde_state(&nb);
+                    let fit: Fit = $extract(&nb, &state);
                     let pred = match guard(|| nb.predict(&q)) {
                         Err(msg) => Err(msg),
                         Ok(Err(e)) => Err(format!("Err: {}", e)),
                         Ok(Ok(v)) => Ok(v),
                     };
-                    ImplOut { fit: Ok(Some(fit)), pred: Some(pred) }
+                    ImplOut { fields, fit: Ok(Some(fit)), state: Some(state), pred: Some(pred) }
                 }
             }
         };
     }
-    match c.v {
-        Variant::G => {
-            let params = GaussianNBParameters { priors: c.priors.clone() };
-            finish!(guard(|| GaussianNB::fit(&x, &y, params)), |nb: &GaussianNB<f64, DenseMatrix<f64>>| Fit {
+    match params {
+        Params::G(params) => {
+            finish!(guard(|| GaussianNB::fit(&x, &y, params)), |nb: &GaussianNB<f64, DenseMatrix<f64>>, _st: &Value| Fit {
                 classes: nb.classes().clone(),
                 count: nb.class_count().clone(),
                 priors: nb.class_priors().clone(),
@@ -135,34 +351,31 @@ fn run_impl(c: &Case) -> ImplOut {
                 ..Default::default()
             })
         }
-        Variant::M => {
-            let params = MultinomialNBParameters { alpha: c.alpha, priors: c.priors.clone() };
-            finish!(guard(|| MultinomialNB::fit(&x, &y, params)), |nb: &MultinomialNB<f64, DenseMatrix<f64>>| Fit {
+        Params::M(params) => {
+            finish!(guard(|| MultinomialNB::fit(&x, &y, params)), |nb: &MultinomialNB<f64, DenseMatrix<f64>>, st: &Value| Fit {
                 classes: nb.classes().clone(),
                 count: nb.class_count().clone(),
-                priors: priors_via_serde(nb),
+                priors: priors_of_state(st),
                 fcount: nb.feature_count().clone(),
                 flp: nb.feature_log_prob().clone(),
                 ..Default::default()
             })
         }
-        Variant::B => {
-            let params = BernoulliNBParameters { alpha: c.alpha, priors: c.priors.clone(), binarize: c.binarize };
-            finish!(guard(|| BernoulliNB::fit(&x, &y, params)), |nb: &BernoulliNB<f64, DenseMatrix<f64>>| Fit {
+        Params::B(params) => {
+            finish!(guard(|| BernoulliNB::fit(&x, &y, params)), |nb: &BernoulliNB<f64, DenseMatrix<f64>>, st: &Value| Fit {
                 classes: nb.classes().clone(),
                 count: nb.class_count().clone(),
-                priors: priors_via_serde(nb),
+                priors: priors_of_state(st),
                 fcount: nb.feature_count().clone(),
                 flp: nb.feature_log_prob().clone(),
                 ..Default::default()
             })
         }
-        Variant::C => {
-            let params = CategoricalNBParameters { alpha: c.alpha };
-            finish!(guard(|| CategoricalNB::fit(&x, &y, params)), |nb: &CategoricalNB<f64, DenseMatrix<f64>>| Fit {
+        Params::C(params) => {
+            finish!(guard(|| CategoricalNB::fit(&x, &y, params)), |nb: &CategoricalNB<f64, DenseMatrix<f64>>, st: &Value| Fit {
                 classes: nb.classes().clone(),
                 count: nb.class_count().clone(),
-                priors: priors_via_serde(nb),
+                priors: priors_of_state(st),
                 ncat: nb.n_categories().clone(),
                 catcount: nb.category_count().clone(),
                 coef: nb.feature_log_prob().clone(),
@@ -579,6 +792,128 @@ fn strict_ok(c: &Case) -> bool {
 }
 
 // ------------------------------------------------------------------------------------------
+// builder_order_irrelevant: the parameter struct, the fitted model (accessors, serde state) and its
+// predictions do not depend on HOW the requested values were put into the parameter struct
+// ------------------------------------------------------------------------------------------
+const BUILDER: &str = "builder_order_irrelevant";
+
+fn same<T: std::fmt::Debug>(a: &T, b: &T) -> bool {
+    // Debug of f64 is exact (shortest round-trip form, "-0.0", "NaN"), so this is a bit-level comparison
+    format!("{:?}", a) == format!("{:?}", b)
+}
+fn clip(s: String) -> String {
+    if s.len() > 600 { format!("{}…", s.chars().take(600).collect::<String>()) } else { s }
+}
+fn outcome(r: &Result<Option<Fit>, String>) -> String {
+    match r {
+        Ok(Some(_)) => "Ok(model)".into(),
+        Ok(None) => "Err(Failed)".into(),
+        Err(m) => format!("panic: {}", m),
+    }
+}
+
+/// first difference between the struct-literal run and the builder-configured run on the same data
+fn diff_runs(lit: &ImplOut, bld: &ImplOut) -> Option<String> {
+    match (&lit.fit, &bld.fit) {
+        (Ok(Some(a)), Ok(Some(b))) => {
+            macro_rules! acc {
+                ($f:ident, $name:expr) => {
+                    if !same(&a.$f, &b.$f) {
+                        return Some(clip(format!("{} = {:?}, the struct-literal fit has {:?}", $name, b.$f, a.$f)));
+                    }
+                };
+            }
+            acc!(classes, "classes()");
+            acc!(count, "class_count()");
+            acc!(priors, "class priors");
+            acc!(theta, "theta()");
+            acc!(var, "var()");
+            acc!(fcount, "feature_count()");
+            acc!(flp, "feature_log_prob()");
+            acc!(ncat, "n_categories()");
+            acc!(catcount, "category_count()");
+            acc!(coef, "feature_log_prob()");
+        }
+        (Ok(None), Ok(None)) => {}
+        (Err(a), Err(b)) if a == b => {}
+        (a, b) => return Some(clip(format!("fit gives {}, with the struct literal {}", outcome(b), outcome(a)))),
+    }
+    if lit.state != bld.state {
+        return Some("the serialized state of the fitted model differs from the struct-literal fit's".into());
+    }
+    if !same(&lit.pred, &bld.pred) {
+        return Some(clip(format!("predictions on the probe rows are {:?}, the struct-literal fit predicts {:?}", bld.pred, lit.pred)));
+    }
+    None
+}
+
+/// The oracle for one call sequence (`c.build`), given the run with the struct literal holding the
+/// requested values.  (a) the public fields of the built struct are the requested values;
+/// (b) fit / accessors / serde state / predictions equal the struct-literal run.  A failure is
+/// described together with the verdict of the definition-based oracles on the builder-configured model.
+fn builder_check(c: &Case, lit: &ImplOut) -> Option<String> {
+    let steps = c.build.as_ref()?;
+    let bld = run_impl(c);
+    let want = c.requested();
+    let mut problems: Vec<String> = vec![];
+    match &bld.fields {
+        None => {}
+        Some(f) => {
+            if !fields_same(f, &want) {
+                problems.push(clip(format!("the built struct has (alpha, priors, binarize) = {:?}, requested {:?}", f, want)));
+            }
+        }
+    }
+    if let Some(d) = diff_runs(lit, &bld) {
+        problems.push(d);
+    }
+    if problems.is_empty() {
+        return None;
+    }
+    let defs: Vec<String> = evaluate(c, &bld).failures.iter().map(|(o, w)| format!("{}: {}", o, w)).collect();
+    Some(format!(
+        "{}: {}{}",
+        clip(calls(c.v, steps)),
+        problems.join("; "),
+        if defs.is_empty() { String::new() } else { format!(" -- judged by the definitions with the requested values: {}", clip(defs.join("; "))) }
+    ))
+}
+
+fn permutations(n: usize) -> Vec<Vec<usize>> {
+    if n == 0 {
+        return vec![vec![]];
+    }
+    let mut out = vec![];
+    for p in permutations(n - 1) {
+        for pos in 0..=p.len() {
+            let mut q = p.clone();
+            q.insert(pos, n - 1);
+            out.push(q);
+        }
+    }
+    out
+}
+
+/// Every order of the calls `finals` (one per field to set), and for every order, every call
+/// preceded — at every earlier position — by a call of the same method with another value
+/// (`decoys[i]` has the kind of `finals[i]`), which the later call must override.
+fn sequences(finals: &[Step], decoys: &[Step]) -> Vec<Vec<Step>> {
+    let mut out = vec![];
+    for perm in permutations(finals.len()) {
+        let base: Vec<Step> = perm.iter().map(|i| finals[*i].clone()).collect();
+        out.push(base.clone());
+        for (pos, i) in perm.iter().enumerate() {
+            for j in 0..=pos {
+                let mut s = base.clone();
+                s.insert(j, decoys[*i].clone());
+                out.push(s);
+            }
+        }
+    }
+    out
+}
+
+// ------------------------------------------------------------------------------------------
 // correspondence terms
 // ------------------------------------------------------------------------------------------
 fn coq_nmat(m: &[Vec<usize>]) -> String {
@@ -622,7 +957,27 @@ fn emit_corr(out: &mut Out, c: &Case, group: &str) {
         ),
         Variant::C => format!("corr_categorical {} {} {}", coq_rows_f64(&c.x), coq_list_z(&c.y), coq_f64(c.alpha)),
     };
-    let term = format!("{} {} {} {} {}", head, coq_rows_f64(&c.q), coq_bool(strict), coq_option(exp_fit), coq_option(exp_pred));
+    let term = match (&c.build, &io.fields) {
+        (None, _) => format!("{} {} {} {} {}", head, coq_rows_f64(&c.q), coq_bool(strict), coq_option(exp_fit), coq_option(exp_pred)),
+        // the model applies the recorded calls to its own defaults; the implementation was configured
+        // through its builder; the built struct's fields are compared as well
+        (Some(steps), Some((fa, fp, fb))) => format!(
+            "corr_{}_built {} ({}, {}, {}) {} {} {} {} {} {}",
+            c.v.name(),
+            coq_list(steps.iter().map(|s| s.coq())),
+            coq_f64(*fa),
+            coq_option(fp.as_ref().map(|p| coq_list_f64(p))),
+            coq_option(fb.map(coq_f64)),
+            coq_rows_f64(&c.x),
+            coq_list_z(&c.y),
+            coq_rows_f64(&c.q),
+            coq_bool(strict),
+            coq_option(exp_fit),
+            coq_option(exp_pred)
+        ),
+        // a builder method panicked: the model's builder is total
+        (Some(_), None) => "false".to_string(),
+    };
     out.count(&format!("corr:{}:{}", group, if strict { "strict" } else { "tolerance" }));
     if matches!(io.pred, Some(Err(_))) {
         out.count(&format!("corr:{}:predict-panics", group));
@@ -786,7 +1141,7 @@ fn gen_gaussian(rng: &mut Rng, sz: &Sizes) -> Case {
         })
         .collect();
     let priors = gen_priors(rng, &y, 0.25);
-    Case { v: Variant::G, x, y, alpha: 1.0, priors, binarize: None, q, family: format!("gaussian:{}{}", fam, if single { ":single-row-classes" } else { "" }), dup: None }
+    Case { v: Variant::G, x, y, alpha: 1.0, priors, binarize: None, q, family: format!("gaussian:{}{}", fam, if single { ":single-row-classes" } else { "" }), dup: None, build: None }
 }
 
 fn gen_multinomial(rng: &mut Rng, sz: &Sizes) -> Case {
@@ -804,7 +1159,7 @@ fn gen_multinomial(rng: &mut Rng, sz: &Sizes) -> Case {
         })
         .collect();
     let priors = gen_priors(rng, &y, 0.25);
-    Case { v: Variant::M, x, y, alpha: gen_alpha(rng), priors, binarize: None, q, family: "multinomial:counts".into(), dup: None }
+    Case { v: Variant::M, x, y, alpha: gen_alpha(rng), priors, binarize: None, q, family: "multinomial:counts".into(), dup: None, build: None }
 }
 
 fn gen_bernoulli(rng: &mut Rng, sz: &Sizes) -> Case {
@@ -835,7 +1190,7 @@ fn gen_bernoulli(rng: &mut Rng, sz: &Sizes) -> Case {
         .map(|_| if rng.chance(0.3) { x[rng.below(n)].clone() } else { (0..p).map(|_| { let one = rng.bool(); value(rng, one) }).collect() })
         .collect();
     let priors = gen_priors(rng, &y, 0.25);
-    Case { v: Variant::B, x, y, alpha: gen_alpha(rng), priors, binarize, q, family: fam.into(), dup: None }
+    Case { v: Variant::B, x, y, alpha: gen_alpha(rng), priors, binarize, q, family: fam.into(), dup: None, build: None }
 }
 
 fn gen_categorical(rng: &mut Rng, sz: &Sizes, allow_unseen: bool) -> Case {
@@ -866,7 +1221,7 @@ fn gen_categorical(rng: &mut Rng, sz: &Sizes, allow_unseen: bool) -> Case {
             }
         })
         .collect();
-    Case { v: Variant::C, x, y, alpha: gen_alpha(rng), priors: None, binarize: None, q, family: format!("categorical:{}", style), dup: None }
+    Case { v: Variant::C, x, y, alpha: gen_alpha(rng), priors: None, binarize: None, q, family: format!("categorical:{}", style), dup: None, build: None }
 }
 
 /// Duplicate one class under a second label: identical rows in identical order, so both classes get
@@ -907,6 +1262,54 @@ fn gen_case(rng: &mut Rng, v: Variant, sz: &Sizes, allow_unseen: bool) -> Case {
     }
 }
 
+/// A case whose requested parameter values are NOT the defaults, with the builder calls that request
+/// them (`finals`: one call per field that is set; a field without a call keeps its documented
+/// default) and, per call, a call of the same method with a different value (`decoys`).
+fn gen_builder_case(rng: &mut Rng, v: Variant, sz: &Sizes) -> (Case, Vec<Step>, Vec<Step>) {
+    let c = loop {
+        let c = gen_case(rng, v, sz, false);
+        // the builder cannot express `binarize: None`; a threshold of 0 is the default
+        if v != Variant::B || matches!(c.binarize, Some(t) if t != 0.0) {
+            break c;
+        }
+    };
+    let alpha = loop {
+        let a = gen_alpha(rng);
+        if a != 1.0 {
+            break a;
+        }
+    };
+    let alpha2 = loop {
+        let a = gen_alpha(rng);
+        if a != 1.0 && a != alpha {
+            break a;
+        }
+    };
+    let pri = gen_priors(rng, &c.y, 1.0).unwrap();
+    let pri2 = gen_priors(rng, &c.y, 1.0).unwrap();
+    let th = c.binarize.unwrap_or(0.5);
+    let th2 = th + *rng.pick(&[0.75, -0.5, 1.25, -1.75]);
+    let all = [(Step::Alpha(alpha), Step::Alpha(alpha2)), (Step::Priors(pri), Step::Priors(pri2)), (Step::Binarize(th), Step::Binarize(th2))];
+    let mut finals = vec![];
+    let mut decoys = vec![];
+    let p_in = if rng.chance(0.04) { 0.0 } else { 0.85 }; // now and then no call at all: Default::default() itself
+    for (f, d) in all.iter() {
+        if f.applicable(v) && rng.chance(p_in) {
+            finals.push(f.clone());
+            decoys.push(d.clone());
+        }
+    }
+    if finals.is_empty() && p_in > 0.0 {
+        for (f, d) in all.iter().filter(|(f, _)| f.applicable(v)) {
+            finals.push(f.clone());
+            decoys.push(d.clone());
+        }
+    }
+    let mut c = c.with_steps(&finals).literal();
+    c.family = format!("builder:{}", c.family);
+    (c, finals, decoys)
+}
+
 // ------------------------------------------------------------------------------------------
 // search driver
 // ------------------------------------------------------------------------------------------
@@ -914,8 +1317,42 @@ fn still_fails(c: &Case, oracle: &str) -> bool {
     if c.x.is_empty() || c.q.is_empty() || c.x[0].is_empty() {
         return false;
     }
+    if oracle == BUILDER {
+        if c.build.is_none() {
+            return false;
+        }
+        let lit = run_impl(&c.literal());
+        return builder_check(c, &lit).is_some();
+    }
     let io = run_impl(c);
     evaluate(c, &io).failures.iter().any(|(o, _)| o == oracle)
+}
+
+/// drop builder calls while the oracle still fails (the requested values follow the remaining calls);
+/// `rev`: try the later calls first (which facet of a multi-field loss survives depends on the order)
+fn shrink_steps(c: &Case, rev: bool) -> Case {
+    let mut cur = c.clone();
+    loop {
+        let steps = match &cur.build {
+            Some(s) => s.clone(),
+            None => return cur,
+        };
+        let mut progress = false;
+        for i0 in 0..steps.len() {
+            let i = if rev { steps.len() - 1 - i0 } else { i0 };
+            let mut t = steps.clone();
+            t.remove(i);
+            let cand = cur.with_steps(&t);
+            if still_fails(&cand, BUILDER) {
+                cur = cand;
+                progress = true;
+                break;
+            }
+        }
+        if !progress {
+            return cur;
+        }
+    }
 }
 
 /// greedy shrinking: fewer query rows, fewer training rows, fewer features
@@ -989,6 +1426,61 @@ fn search_case(out: &mut Out, c: &Case) {
     }
 }
 
+/// `c`: struct-literal case with the requested values (judged by the definition-based oracles in
+/// `search_case`); every call sequence of `sequences(finals, decoys)` must reproduce its run.
+fn builder_search(out: &mut Out, c: &Case, finals: &[Step], decoys: &[Step]) {
+    search_case(out, c);
+    let lit = run_impl(c);
+    let name = c.v.name();
+    out.count(&format!("builder:{}:cases", name));
+    out.count(&format!("builder:{}:fields-set={}", name, finals.len()));
+    let dflt = requested_from_steps(c.v, &[]);
+    let non_default = !fields_same(&c.requested(), &dflt);
+    let mut kd: Vec<f64> = c.x.iter().flatten().cloned().collect();
+    kd.extend(c.y.iter().map(|l| *l as f64));
+    kd.extend(c.q.iter().flatten().cloned());
+    let mut failing: Vec<(Case, String)> = vec![];
+    for s in sequences(finals, decoys) {
+        let b = c.built(&s);
+        let mut key = kd.clone();
+        for st in &s {
+            key.push(-1.0 - st.kind() as f64);
+            match st {
+                Step::Alpha(a) | Step::Binarize(a) => key.push(*a),
+                Step::Priors(p) => key.extend(p.iter().cloned()),
+            }
+        }
+        out.eval(hash_f64s(&key), non_default && s.len() >= 2);
+        out.count(&format!("builder:{}:call-sequences", name));
+        if s.len() > finals.len() {
+            out.count("builder:sequences-with-an-overridden-earlier-call");
+        }
+        if let Some(what) = builder_check(&b, &lit) {
+            out.count("builder:failing-call-sequences");
+            failing.push((b, what));
+        }
+    }
+    // one report per case: one of the shortest failing call sequences (a different one from report to
+    // report, so that the stored replays show the different ways of failing), shrunk
+    let len_of = |b: &Case| b.build.as_ref().map(|s| s.len()).unwrap_or(0);
+    let shortest = failing.iter().map(|(b, _)| len_of(b)).min().unwrap_or(0);
+    let cands: Vec<&(Case, String)> = failing.iter().filter(|(b, _)| len_of(b) == shortest).collect();
+    if !cands.is_empty() {
+        let (b, what) = cands[(out.n_fail() * 5 + 1) % cands.len()];
+        let (small, what2) = if out.n_fail() < 10 {
+            let small = shrink(&shrink_steps(b, out.n_fail() % 2 == 1), BUILDER);
+            let lit2 = run_impl(&small.literal());
+            let w = builder_check(&small, &lit2).unwrap_or_else(|| what.clone());
+            (small, w)
+        } else {
+            (b.clone(), what.clone())
+        };
+        let mut w = small.to_json();
+        w["oracle"] = json!(BUILDER);
+        out.fail(BUILDER, &what2, w);
+    }
+}
+
 fn corpus() -> Vec<Case> {
     // the data sets of the unit tests / doc examples (C11 has no repaired defect in DESIGN section 2)
     let g = Case {
@@ -1001,6 +1493,7 @@ fn corpus() -> Vec<Case> {
         q: vec![vec![-1., -1.], vec![2., 1.], vec![0.5, 0.25]],
         family: "corpus:gaussian".into(),
         dup: None,
+        build: None,
     };
     let mut g2 = g.clone();
     g2.priors = Some(vec![0.3, 0.7]);
@@ -1014,6 +1507,7 @@ fn corpus() -> Vec<Case> {
         q: vec![vec![0., 3., 1., 0., 0., 1.]],
         family: "corpus:multinomial".into(),
         dup: None,
+        build: None,
     };
     let b = Case {
         v: Variant::B,
@@ -1025,6 +1519,7 @@ fn corpus() -> Vec<Case> {
         q: vec![vec![0., 1., 1., 0., 0., 1.]],
         family: "corpus:bernoulli".into(),
         dup: None,
+        build: None,
     };
     let cx: Vec<Vec<f64>> = vec![
         vec![0., 2., 1., 0.], vec![0., 2., 1., 1.], vec![1., 2., 1., 0.], vec![2., 1., 1., 0.], vec![2., 0., 0., 0.],
@@ -1041,8 +1536,34 @@ fn corpus() -> Vec<Case> {
         q: vec![cx[0].clone(), cx[4].clone(), vec![0., 2., 1., 1.]],
         family: "corpus:categorical".into(),
         dup: None,
+        build: None,
     };
     vec![g, g2, m, b, c]
+}
+
+/// Fixed builder regression case: real-valued features thresholded at 0.5, skewed classes -1 / 4 / 7,
+/// alpha = 0.25 and user priors far from the class frequencies, all three Bernoulli builder calls.
+fn builder_corpus() -> (Case, Vec<Step>, Vec<Step>) {
+    let x = vec![
+        vec![0.9, 0.1, 0.7, 0.2], vec![0.8, 0.3, 0.2, 0.1], vec![0.7, 0.6, 0.9, 0.4], vec![0.2, 0.1, 0.8, 0.3],
+        vec![0.9, 0.4, 0.6, 0.0], vec![0.6, 0.2, 0.1, 0.9], vec![0.1, 0.9, 0.3, 0.8], vec![0.7, 0.8, 0.4, 0.2],
+        vec![0.3, 0.2, 0.1, 0.9], vec![0.4, 0.7, 0.9, 0.6], vec![0.1, 0.1, 0.2, 0.7],
+    ];
+    let c = Case {
+        v: Variant::B,
+        q: x.clone(),
+        x,
+        y: vec![-1, -1, -1, -1, -1, -1, 4, 4, 7, 7, 7],
+        alpha: 0.25,
+        priors: Some(vec![0.1, 0.3, 0.6]),
+        binarize: Some(0.5),
+        family: "corpus:builder:bernoulli".into(),
+        dup: None,
+        build: None,
+    };
+    let finals = vec![Step::Alpha(0.25), Step::Priors(vec![0.1, 0.3, 0.6]), Step::Binarize(0.5)];
+    let decoys = vec![Step::Alpha(3.0), Step::Priors(vec![0.5, 0.25, 0.25]), Step::Binarize(-0.25)];
+    (c, finals, decoys)
 }
 
 fn replay(path: &str) -> i32 {
@@ -1069,11 +1590,26 @@ fn replay(path: &str) -> i32 {
             return 2;
         }
     };
-    let io = run_impl(&c);
-    let v = evaluate(&c, &io);
-    if !v.failures.is_empty() {
+    let mut builder_failure = None;
+    if let Some(steps) = &c.build {
+        // the recorded calls must be calls the variant offers and must request the recorded values
+        if steps.iter().any(|s| !s.applicable(c.v)) || !fields_same(&requested_from_steps(c.v, steps), &c.requested()) {
+            eprintln!("malformed replay: the builder calls do not request the recorded parameter values");
+            return 2;
+        }
+        let lit = run_impl(&c.literal());
+        builder_failure = builder_check(&c, &lit);
+    }
+    // the struct-literal fit, by the definitions
+    let c0 = c.literal();
+    let io = run_impl(&c0);
+    let v = evaluate(&c0, &io);
+    if !v.failures.is_empty() || builder_failure.is_some() {
         for (o, w) in &v.failures {
             println!("  {}: {}", o, w);
+        }
+        if let Some(w) = &builder_failure {
+            println!("  {}: {}", BUILDER, w);
         }
         println!("REPLAY: property=C11 still fails: {}", path);
         1
@@ -1092,14 +1628,23 @@ fn main() {
     let mut rng = Rng::new(a.seed);
     let mut out = Out::new(
         "C11",
-        "search case = (variant, training matrix, integer labels, alpha, optional user priors, optional threshold, query rows); non-trivial: at least two non-empty classes with unequal counts; distinct by hash of (x, y, queries, alpha)",
+        "search case = (variant, training matrix, integer labels, alpha, optional user priors, optional threshold, query rows), parameters as a struct literal; non-trivial: at least two non-empty classes with unequal counts; distinct by hash of (x, y, queries, alpha). builder case = such a case with non-default requested values plus one sequence of builder calls on Default::default() (every permutation of the calls, and every permutation with one earlier overridden call of the same method at every earlier position); non-trivial: requested values differ from the defaults and at least two calls; distinct by hash of (x, y, queries, call sequence)",
     );
+    out.max_samples = 5; // one per variant and one builder case
     let variants = [Variant::G, Variant::M, Variant::B, Variant::C];
 
     // ---- corpus ----
     for c in corpus() {
         search_case(&mut out, &c);
         emit_corr(&mut out, &c, c.v.name());
+    }
+
+    {
+        let (c, finals, decoys) = builder_corpus();
+        builder_search(&mut out, &c, &finals, &decoys);
+        // alpha -> priors -> threshold, and threshold first
+        emit_corr(&mut out, &c.built(&finals), "builder-bernoulli");
+        emit_corr(&mut out, &c.built(&[finals[2].clone(), decoys[0].clone(), finals[1].clone(), finals[0].clone()]), "builder-bernoulli");
     }
 
     // ---- correspondence: small cases through the Coq model ----
@@ -1127,6 +1672,17 @@ fn main() {
         }
         emit_corr(&mut out, &c, "error-paths");
     }
+    // parameters through the builder, in a random call order (possibly with an overridden earlier call):
+    // the model applies the same calls to its defaults
+    for (v, nq, nt) in [(Variant::B, 36, 150), (Variant::M, 24, 100), (Variant::G, 12, 50), (Variant::C, 12, 50)].iter() {
+        for _ in 0..(if a.thorough { *nt } else { *nq }) {
+            let (c, finals, decoys) = gen_builder_case(&mut rng, *v, &small);
+            let seqs = sequences(&finals, &decoys);
+            let s = rng.pick(&seqs).clone();
+            out.count(&format!("corr:builder:calls={}", s.len()));
+            emit_corr(&mut out, &c.built(&s), &format!("builder-{}", v.name()));
+        }
+    }
     for _ in 0..(if a.thorough { 60 } else { 16 }) {
         let n = rng.usize_in(1, 14);
         let k = rng.usize_in(1, 5);
@@ -1147,6 +1703,17 @@ fn main() {
             search_case(&mut out, &c);
             if i < 1 {
                 out.sample(c.to_json());
+            }
+        }
+    }
+    // ---- search: builder call orders ----
+    for (v, nq, nt) in [(Variant::B, 500, 4000), (Variant::M, 400, 3000), (Variant::G, 200, 1500), (Variant::C, 200, 1500)].iter() {
+        for i in 0..(if a.thorough { *nt } else { *nq }) {
+            let (c, finals, decoys) = gen_builder_case(&mut rng, *v, &full);
+            builder_search(&mut out, &c, &finals, &decoys);
+            if i < 1 && *v == Variant::B {
+                let seqs = sequences(&finals, &decoys);
+                out.sample(c.built(&seqs[seqs.len() - 1]).to_json());
             }
         }
     }
